@@ -135,4 +135,174 @@ fn main() {
         }
     }
     std::fs::write(Path::new(&out_dir).join("login_dispatch.rs"), out).unwrap();
+
+    // update mask accessors: scan function signatures of the generated impls.rs
+    let mut out = String::new();
+    let kinds = ["Item", "Container", "Unit", "Player", "GameObject", "DynamicObject", "Corpse"];
+    let mut variants = Vec::new();
+    for exp in ["vanilla", "tbc", "wrath"] {
+        let p = format!("{}/wow_world_messages/src/helper/{}/update_mask/impls.rs", repo, exp);
+        println!("cargo:rerun-if-changed={}", p);
+        let src = std::fs::read_to_string(&p).unwrap();
+        let mut cur = String::new();
+        // (type, fn name, class, argty)
+        let mut fns: Vec<(String, String, &'static str, &'static str)> = Vec::new();
+        let mut skipped = 0usize;
+        for l in src.lines() {
+            if let Some(rest) = l.strip_prefix("impl ") {
+                cur = rest.trim_end_matches(" {").trim().to_string();
+                continue;
+            }
+            let l = l.trim();
+            let Some(rest) = l.strip_prefix("pub fn ") else { continue };
+            let Some((name, sig)) = rest.split_once('(') else { continue };
+            let sig = sig.trim_end_matches(" {").trim();
+            let argty = |s: &str| -> Option<&'static str> {
+                Some(match s {
+                    "v: i32" => "I",
+                    "v: f32" => "F",
+                    "v: Guid" => "G",
+                    "a: u8, b: u8, c: u8, d: u8" => "B",
+                    "a: u16, b: u16" => "S",
+                    _ => return None,
+                })
+            };
+            if let Some(args) = sig.strip_prefix("mut self, ").and_then(|x| x.strip_suffix(") -> Self")) {
+                match argty(args) {
+                    Some(t) => fns.push((cur.clone(), name.to_string(), "bset", t)),
+                    None => skipped += 1,
+                }
+            } else if let Some(args) = sig.strip_prefix("&mut self, ").and_then(|x| x.strip_suffix(")")) {
+                match argty(args) {
+                    Some(t) => fns.push((cur.clone(), name.to_string(), "set", t)),
+                    None => skipped += 1,
+                }
+            } else if let Some(ret) = sig.strip_prefix("&self) -> Option<").and_then(|x| x.strip_suffix(">")) {
+                let t = match ret {
+                    "i32" => Some("I"),
+                    "f32" => Some("F"),
+                    "Guid" => Some("G"),
+                    "(u8, u8, u8, u8)" => Some("B"),
+                    "(u16, u16)" => Some("S"),
+                    _ => None,
+                };
+                match t {
+                    Some(t) => fns.push((cur.clone(), name.to_string(), "get", t)),
+                    None => skipped += 1,
+                }
+            } else {
+                skipped += 1;
+            }
+        }
+        let e = exp.to_uppercase();
+        writeln!(out, "pub const UM_SKIPPED_{e}: usize = {skipped};").unwrap();
+        writeln!(out, "pub const UM_SETTERS_{e}: &[(&str, &str, &str)] = &[").unwrap();
+        for (ty, name, class, t) in &fns {
+            if *class == "set" {
+                writeln!(out, "    (\"{}\", \"{}\", \"{}\"),", ty.trim_start_matches("Update"), name.trim_start_matches("set_"), t).unwrap();
+            }
+        }
+        writeln!(out, "];").unwrap();
+        let arg_pat = |t: &str| match t {
+            "I" => ("Arg::I(v)", "*v"),
+            "F" => ("Arg::F(v)", "*v"),
+            "G" => ("Arg::G(v)", "wow_world_messages::Guid::new(*v)"),
+            "B" => ("Arg::B(a, b, c, d)", "*a, *b, *c, *d"),
+            _ => ("Arg::S(a, b)", "*a, *b"),
+        };
+        // mask setters
+        writeln!(out, "pub fn um_set_{exp}(m: &mut AnyMask, name: &str, a: &Arg) -> bool {{\n    match (m, name, a) {{").unwrap();
+        for (ty, name, class, t) in &fns {
+            if *class == "set" {
+                let k = ty.trim_start_matches("Update");
+                let (pat, call) = arg_pat(t);
+                writeln!(out, "        (AnyMask::{e}{k}(x), \"{}\", {pat}) => {{ x.{name}({call}); true }}", name.trim_start_matches("set_")).unwrap();
+            }
+        }
+        writeln!(out, "        _ => false,\n    }}\n}}").unwrap();
+        // builder setters
+        writeln!(out, "pub fn um_bset_{exp}(m: AnyBuilder, name: &str, a: &Arg) -> Result<AnyBuilder, AnyBuilder> {{\n    match (m, name, a) {{").unwrap();
+        for (ty, name, class, t) in &fns {
+            if *class == "bset" {
+                let k = ty.trim_start_matches("Update").trim_end_matches("Builder");
+                let (pat, call) = arg_pat(t);
+                writeln!(out, "        (AnyBuilder::{e}{k}(x), \"{}\", {pat}) => Ok(AnyBuilder::{e}{k}(x.{name}({call}))),", name.trim_start_matches("set_")).unwrap();
+            }
+        }
+        writeln!(out, "        (m, _, _) => Err(m),\n    }}\n}}").unwrap();
+        // getters
+        writeln!(out, "pub fn um_get_{exp}(m: &AnyMask, name: &str) -> Option<Got> {{\n    match (m, name) {{").unwrap();
+        for (ty, name, class, t) in &fns {
+            if *class == "get" {
+                let k = ty.trim_start_matches("Update");
+                let conv = match *t {
+                    "I" => "x.NAME().map(Got::I)",
+                    "F" => "x.NAME().map(|v| Got::F(v.to_bits()))",
+                    "G" => "x.NAME().map(|v| Got::G(v.guid()))",
+                    "B" => "x.NAME().map(|(a, b, c, d)| Got::B(a, b, c, d))",
+                    _ => "x.NAME().map(|(a, b)| Got::S(a, b))",
+                }
+                .replace("NAME", name);
+                writeln!(out, "        (AnyMask::{e}{k}(x), \"{name}\") => Some({conv}.unwrap_or(Got::Absent)),").unwrap();
+            }
+        }
+        writeln!(out, "        _ => None,\n    }}\n}}").unwrap();
+        for k in kinds {
+            variants.push((exp.to_string(), e.clone(), k.to_string()));
+        }
+    }
+    writeln!(out, "#[derive(Clone, Debug, PartialEq)]\npub enum AnyMask {{").unwrap();
+    for (exp, e, k) in &variants {
+        writeln!(out, "    {e}{k}(wow_world_messages::{exp}::Update{k}),").unwrap();
+    }
+    writeln!(out, "}}\n#[derive(Clone, Debug, PartialEq)]\npub enum AnyBuilder {{").unwrap();
+    for (exp, e, k) in &variants {
+        writeln!(out, "    {e}{k}(wow_world_messages::{exp}::Update{k}Builder),").unwrap();
+    }
+    writeln!(out, "}}").unwrap();
+    writeln!(out, "pub fn um_new_builder(exp: Exp, kind: &str) -> Option<AnyBuilder> {{\n    Some(match (exp, kind) {{").unwrap();
+    for (exp, e, k) in &variants {
+        let ev = match exp.as_str() { "vanilla" => "Vanilla", "tbc" => "Tbc", _ => "Wrath" };
+        writeln!(out, "        (Exp::{ev}, \"{k}\") => AnyBuilder::{e}{k}(wow_world_messages::{exp}::Update{k}::builder()),").unwrap();
+    }
+    writeln!(out, "        _ => return None,\n    }})\n}}").unwrap();
+    writeln!(out, "pub fn um_finalize(b: AnyBuilder) -> AnyMask {{\n    match b {{").unwrap();
+    for (_, e, k) in &variants {
+        writeln!(out, "        AnyBuilder::{e}{k}(x) => AnyMask::{e}{k}(x.finalize()),").unwrap();
+    }
+    writeln!(out, "    }}\n}}").unwrap();
+    for (f, sig, body) in [
+        ("dirty_reset", "m: &mut AnyMask", "x.dirty_reset()"),
+        ("mark_fully_dirty", "m: &mut AnyMask", "x.mark_fully_dirty()"),
+    ] {
+        writeln!(out, "pub fn um_{f}({sig}) {{\n    match m {{").unwrap();
+        for (_, e, k) in &variants {
+            writeln!(out, "        AnyMask::{e}{k}(x) => {body},").unwrap();
+        }
+        writeln!(out, "    }}\n}}").unwrap();
+    }
+    writeln!(out, "pub fn um_has_any_dirty_fields(m: &AnyMask) -> bool {{\n    match m {{").unwrap();
+    for (_, e, k) in &variants {
+        writeln!(out, "        AnyMask::{e}{k}(x) => x.has_any_dirty_fields(),").unwrap();
+    }
+    writeln!(out, "    }}\n}}").unwrap();
+    writeln!(out, "pub fn um_is_bit_dirty(m: &AnyMask, bit: u16) -> bool {{\n    match m {{").unwrap();
+    for (_, e, k) in &variants {
+        writeln!(out, "        AnyMask::{e}{k}(x) => x.is_bit_dirty(bit),").unwrap();
+    }
+    writeln!(out, "    }}\n}}").unwrap();
+    // into the version's UpdateMask and back
+    for (exp, e) in [("vanilla", "VANILLA"), ("tbc", "TBC"), ("wrath", "WRATH")] {
+        writeln!(out, "pub fn um_into_{exp}(m: &AnyMask) -> Option<wow_world_messages::{exp}::UpdateMask> {{\n    Some(match m {{").unwrap();
+        for k in kinds {
+            writeln!(out, "        AnyMask::{e}{k}(x) => wow_world_messages::{exp}::UpdateMask::{k}(x.clone()),").unwrap();
+        }
+        writeln!(out, "        _ => return None,\n    }})\n}}").unwrap();
+        writeln!(out, "pub fn um_from_{exp}(m: wow_world_messages::{exp}::UpdateMask) -> AnyMask {{\n    match m {{").unwrap();
+        for k in kinds {
+            writeln!(out, "        wow_world_messages::{exp}::UpdateMask::{k}(x) => AnyMask::{e}{k}(x),").unwrap();
+        }
+        writeln!(out, "    }}\n}}").unwrap();
+    }
+    std::fs::write(Path::new(&out_dir).join("um_dispatch.rs"), out).unwrap();
 }
